@@ -97,6 +97,20 @@ func vModifiesBytes(s []byte) {}
 // vModifiesAll declares that the target may write any memory.
 func vModifiesAll() {}
 
+// vModifiesHeap declares that the target may write heap objects, maps and
+// non-byte slices, and byte memory it allocates itself, but no byte of a
+// pre-existing buffer.
+func vModifiesHeap() {}
+
+// vModifiesMems declares that the target may write (only) the memories whose
+// name contains one of the given substrings, e.g. "packet.Host/" for every
+// field of every Host object, "map[net/netip.Addr]" for maps of that type.
+func vModifiesMems(patterns ...string) {}
+
+// vStrictLen demands that the target never reslices a buffer beyond its length
+// (so that its result cannot depend on spare capacity).
+func vStrictLen() {}
+
 // vAllocs is the ghost counter of SSA-level allocations.
 func vAllocs() uint64 { return 0 }
 
